@@ -6,6 +6,7 @@ import (
 	"io"
 	"strings"
 	"sync"
+	"time"
 
 	goat "github.com/avos-io/goat"
 	"google.golang.org/grpc"
@@ -62,7 +63,108 @@ func c20List(tier string) []c20Case {
 			out = append(out, c20Case{Kind: "conn-end/" + v, Outcome: cause, StatsSrv: 1 + (i+j)%3})
 		}
 	}
+	for i, v := range []string{"0m", "1n", "0S"} {
+		out = append(out, c20Case{Kind: "expired-on-arrival/" + v, Outcome: "deadline-already-over", SrvChain: 1 + i, StatsSrv: 1 + i%2})
+	}
 	return out
+}
+
+// c20Expired: a unary request whose timeout is over the moment it arrives (a raw envelope: goat's
+// own client never sends less than one millisecond). It is an RPC like any other: every server
+// interceptor runs exactly once around the handler, every stats handler sees one Begin and one End.
+func c20Expired(tier string, seed int64, idx int, c c20Case, res *core.Result) {
+	rec := &c20Rec{}
+	var mu sync.Mutex
+	entered := make([]int, c.SrvChain+1)
+	handlerRuns := 0
+	var uis []grpc.UnaryServerInterceptor
+	for i := 1; i <= c.SrvChain; i++ {
+		uis = append(uis, func(ctx context.Context, req any, info *grpc.UnaryServerInfo, handler grpc.UnaryHandler) (any, error) {
+			mu.Lock()
+			entered[i]++
+			mu.Unlock()
+			return handler(ctx, req)
+		})
+	}
+	sopts := []goat.ServerOption{goat.ChainUnaryInterceptor(uis...)}
+	for j := 0; j < c.StatsSrv; j++ {
+		sopts = append(sopts, goat.StatsHandler(&c20Stats{rec, "s", j}))
+	}
+	h := bed.NewHooks()
+	h.Install()
+	impl := svc.NewImpl()
+	srv := goat.NewServer("srv", sopts...)
+	srv.RegisterService(&svc.Desc, impl)
+	impl.DefU = func(ctx context.Context, tag string, req []byte) ([]byte, error) {
+		mu.Lock()
+		handlerRuns++
+		mu.Unlock()
+		return req, ctx.Err()
+	}
+	l := wire.NewLink(2, idx%2 == 0)
+	ctx, cancel := context.WithCancel(context.Background())
+	defer cancel()
+	served := make(chan struct{})
+	go func() { srv.Serve(ctx, l.B); close(served) }()
+	var pmu sync.Mutex
+	replies := 0
+	wire.NewPeer(ctx, l.A, func(_ *wire.Peer, in *wire.Rpc) {
+		pmu.Lock()
+		replies++
+		pmu.Unlock()
+	})
+	body, _ := proto.Marshal(&svc.BV{Value: []byte("x")})
+	to := strings.TrimPrefix(c.Kind, "expired-on-arrival/")
+	l.A.Write(ctx, &wire.Rpc{Id: 1, Header: &goatorepo.RequestHeader{Method: svc.MUnary, Source: "c0", Destination: "srv",
+		Headers: []*goatorepo.KeyValue{{Key: svc.TagKey, Value: "x"}, {Key: "grpc-timeout", Value: to}}}, Body: &goatorepo.Body{Data: body}})
+	st, _ := settle(tier, func() bool { pmu.Lock(); defer pmu.Unlock(); return replies >= 1 })
+	time.Sleep(5 * time.Millisecond)
+	quiet(tier)
+	where := fmt.Sprintf("unary request with grpc-timeout %s, server chain %d", to, c.SrvChain)
+	if st != "ok" {
+		res.Violate("unary-request-without-response/deadline-already-over", "%s: no response", where)
+	}
+	mu.Lock()
+	for i := 1; i <= c.SrvChain; i++ {
+		if entered[i] != 1 {
+			res.Violate("server-interceptor-order", "%s: interceptor %d ran %d times (the handler ran %d times): an RPC whose deadline is already over is still an RPC", where, i, entered[i], handlerRuns)
+			break
+		}
+	}
+	mu.Unlock()
+	rec.mu.Lock()
+	for j := 0; j < c.StatsSrv; j++ {
+		b, e := 0, 0
+		for _, ev := range rec.evs {
+			if ev.Side == "s" && ev.Handler == j && !ev.Conn {
+				if ev.Type == "*stats.Begin" {
+					b++
+				}
+				if ev.Type == "*stats.End" {
+					e++
+				}
+			}
+		}
+		if b != 1 || e != 1 {
+			res.Violate("stats-begin-end-count/s/deadline-already-over", "%s: server stats handler %d saw %d Begin and %d End", where, j, b, e)
+		}
+	}
+	rec.mu.Unlock()
+	res.Stat("expired_on_arrival_cases", 1)
+	res.Stat("rpcs", 1)
+	cancel()
+	l.Kill()
+	settle(tier, func() bool {
+		select {
+		case <-served:
+			return true
+		default:
+			return false
+		}
+	})
+	bed.Uninstall()
+	h.Fold(res)
+	res.Retire = true
 }
 
 // c20ConnEnd: exactly one ConnBegin and one ConnEnd per served connection, also when the connection
@@ -263,6 +365,10 @@ func (w *c20SS) SendMsg(m any) error {
 func c20Run(tier string, seed int64, idx int) *core.Result {
 	c := c20List(tier)[idx]
 	res := &core.Result{Verdict: core.Held, Sample: c, Sig: fmt.Sprintf("%+v", c), NonTrivial: true}
+	if strings.HasPrefix(c.Kind, "expired-on-arrival/") {
+		c20Expired(tier, seed, idx, c, res)
+		return res
+	}
 	if strings.HasPrefix(c.Kind, "conn-end/") {
 		c20ConnEnd(tier, seed, idx, c, res)
 		return res
@@ -704,7 +810,7 @@ func init() {
 		ThoroughRounds: 8,
 		Run:            c20Run,
 		RequiredStats: func(string) []string {
-			return []string{"rpcs", "stats_handler_rpc_views_checked", "conn_end_scenarios"}
+			return []string{"rpcs", "stats_handler_rpc_views_checked", "conn_end_scenarios", "expired_on_arrival_cases"}
 		},
 		Assumptions: []string{"goat offers one client interceptor slot; client-side chains longer than one are user code and not exercised"},
 	})
